@@ -341,8 +341,18 @@ static CaseResult run_case(Tape &t, long)
     std::vector<std::string> raw_env_store;
     std::map<std::string, std::string> m;
     std::unordered_map<std::string, std::string> um;
+    // One case in three first gives env.extra another value - a borrowed raw
+    // array or a container-built one - so that the assignment below replaces
+    // an existing value (ownership of the old array must follow its kind).
+    // Chosen from values already drawn: the tape positions of everything else stay put.
+    static const char *const pre_raw[] = { "PRE=1", "PRE2=two words", nullptr };
+    uint64_t pre_h = mix(fnv(pairs.empty() ? std::string("-") : pairs[0].first), (uint64_t) npairs * 5 + (uint64_t) env_kind);
+    int pre_kind = pre_h % 3 == 0 ? 1 + (int) (pre_h / 3 % 2) : 0;
+    if (pre_kind == 1) o.env.extra = reproc::env(pre_raw);
+    else if (pre_kind == 2) o.env.extra = reproc::env(std::vector<std::pair<std::string, std::string>>{ { "PRE", "1" }, { "PRE2", "x" } });
     switch (env_kind) {
       case 0:  // default constructed: nullptr
+        if (pre_kind) o.env.extra = reproc::env();
         want_extra_null = true;
         break;
       case 1:
@@ -427,6 +437,7 @@ static CaseResult run_case(Tape &t, long)
     desc.push_back(J().kv("op", use_fork ? "fork" : "start")
                        .kv("via_clone", use_clone)
                        .kv("env_container", env_kind)
+                       .kv("env_assigned_over", pre_kind == 0 ? "nothing" : pre_kind == 1 ? "a borrowed raw array" : "a container-built array")
                        .kv("args_container", arg_kind)
                        .kv("nargs", (unsigned long) nargs)
                        .kv("nenv", (unsigned long) want_extra.size())
